@@ -12,7 +12,8 @@ EXPLANATION = ("Drop accounting. R1 (commit <=> true): in every log_statement in
                "get_and_reset_failure_counter is the result of an atomic read-modify-write (no load followed by a store that would "
                "lose concurrent increments). R4: the number formatted into the notifier message is that result; the report runs on the "
                "idle path of the poll and in the exit drain, for every bounded-queue context. R5: control requests are retried until "
-               "accepted (shared with C06.R1).")
+               "accepted (shared with C06.R1)."
+               " R6-R11 (= C03.R7, C02.R6, C04.R4, C17.R3, C10.R8, C03.R5): queue-kind tables, what 'empty' means, bytes reserved = bytes committed, accepted removals carried out, the drop report cannot end the process, a context is removed only when queue and buffer are empty.")
 NOT_DECIDED = ("delivered + discarded = attempted under every schedule as a count (behavioural; follows from R1 with C01/C03 as "
                "behaviour); the unbounded dropping queue reports no counts by design.")
 ASSUMPTIONS = ["C01-C03 for 'delivered intact and in order'"]
@@ -197,6 +198,27 @@ def r4(ctx, facts, cfg):
             ok = True
     ctx.ob("C08.R4c", "_check_failure_counter:dropped-text-for-dropping-queue", ok,
            "the 'Dropped N log messages' report is issued for dropping queues", fn=f)
+    # R4f: the counter has just been reset to zero, so whatever value was read must be reported: the report is skipped only when that
+    # value is zero (a guard like 'more than one' loses every single drop), and on the 'dropping queue' outcome it is always made
+    from rules.common import nonzero_label
+    g = f.g
+    okf, guards = True, 0
+    dp = npos(f, drop_txt)
+    for bid, b in g.blocks.items():
+        c = g.term_cond(bid)
+        if c is None or not any(var_ref(x) in vids for x in walk(c)):
+            continue
+        guards += 1
+        lab = nonzero_label(c, vids)
+        if lab is None:
+            okf = False
+    dq = [(b, t) for (b, t, c) in branches_on_call(f, r"::has_dropping_queue$")]
+    okf = okf and guards >= 1 and bool(dq) and bool(dp) and \
+        all(not g.exists_path([y for (y, l2) in g.succ.get(tnode(g, b), ()) if l2 == t], [g.exit_node] + [p for lp in loops for p in (g.positions(lp.get("inc")) or [])], avoid_nodes=dp)
+            for (b, t) in dq)
+    ctx.ob("C08.R4f", "_check_failure_counter:every-nonzero-count-reported", okf,
+           "the value read (and reset) is compared with zero only (%d guard(s)); with a non-zero value and a dropping queue the 'Dropped' "
+           "report is made on every path" % guards, fn=f)
     # where it runs
     poll = facts.need(BW + "_poll", cfg)[0]
     ex = facts.need(BW + "_exit", cfg)[0]
